@@ -182,7 +182,7 @@ package ice
 // ASSUMED: the application's nomination value generator does not touch agent state.
 //@ noeffect ice.Agent.nominationValueGenerator
 //@ func (*Agent).renominateCandidate
-//@   props C20
+//@   props C20 C03
 //@   opt nosafety
 //@   ghostvar sent bool = false
 //@   site call findPair#1 assert looks-up-the-pair-of-these-candidates: arg1 == local && arg2 == remote
@@ -200,4 +200,4 @@ package ice
 //@   site call renominateCandidate#1 assert automatic-renomination-needs-both-switches: s.agent.automaticRenomination && s.agent.enableRenomination
 //@   site call renominateCandidate#1 assert renominates-the-pair-it-judged-better: arg1 == bestPair.Local && arg2 == bestPair.Remote && arg0 == s.agent
 //@   site call shouldRenominate#1 assert compares-the-selected-pair-with-the-best-one: arg1 == currentPair && arg2 == bestPair && currentPair != nil && bestPair != nil
-//@ enumerate C20 calls ice.(*Agent).renominateCandidate in (*Agent).RenominateCandidate, (*controllingSelector).checkForAutomaticRenomination
+//@ enumerate C20 C03 calls ice.(*Agent).renominateCandidate in (*Agent).RenominateCandidate, (*controllingSelector).checkForAutomaticRenomination
